@@ -573,6 +573,9 @@ fn render_str(x: &str, out: &mut String) {
             '\r' => out.push_str("\\r"),
             '\t' => out.push_str("\\t"),
             c if (c as u32) < 0x20 => out.push_str(&format!("\\u{:04x}", c as u32)),
+            // non-ASCII BMP characters with an odd code point are written as GraphQL `\uXXXX`
+            // escapes, the others literally: both spellings of a string reach the text parser
+            c if (0x80..0x1_0000).contains(&(c as u32)) && (c as u32) % 2 == 1 => out.push_str(&format!("\\u{:04x}", c as u32)),
             c => out.push(c),
         }
     }
@@ -1812,6 +1815,111 @@ fn mutate(rng: &mut Rng, doc: &mut Doc, si: &SchemaInfo) -> &'static str {
     }
 }
 
+// ---- boundary strings in every directive / edge argument position that takes a string
+
+/// Boundary alphabet for string arguments: empty, lone sigils, sigil + non-ASCII, non-ASCII FIRST
+/// character (2-, 3-, 4-byte UTF-8, combining mark first, BOM first), whitespace / digit /
+/// punctuation first, quote and backslash, and well-formed names for contrast.
+fn boundary_strings() -> Vec<String> {
+    let base = [
+        "", "$", "%", "$$", "%%", "$%a", "$_", "%_a", "$a", "%a", "$a1", "$1", "%9z", "$ x", "% x", "$a b", "$a-b", "a", "_", "ab_1",
+        "1abc", " x", "\tx", "\n", "x ", "=", "<", "count", "is_null", "one_of",
+        "\u{e9}", "\u{e9}tiquette", "\u{df}", "\u{80}", "\u{7ff}", "\u{20ac}name", "\u{800}", "\u{540d}\u{524d}", "\u{ffff}", "\u{1f600}", "\u{1f600}x", "\u{10000}",
+        "\u{301}a", "a\u{301}", "\u{feff}x", "\u{0}", "\u{7f}", "\"", "\\", "a\"b", "x\u{e9}", "x\u{1f600}",
+    ];
+    let mut out: Vec<String> = base.iter().map(|x| x.to_string()).collect();
+    // every non-ASCII-first string also behind each sigil
+    for x in base.iter() {
+        if x.chars().next().map(|c| !c.is_ascii()).unwrap_or(false) {
+            out.push(format!("${x}"));
+            out.push(format!("%{x}"));
+        }
+    }
+    out
+}
+
+/// One document per (boundary string, argument position) over a small valid base query of the
+/// schema; returns (document, position label).
+fn string_position_docs(rng: &mut Rng, si: &SchemaInfo, x: &str) -> Vec<(Doc, &'static str)> {
+    let root_ty = si.ty(&si.query_type).unwrap();
+    // a root field whose target has a property and an edge
+    let pick = root_ty.fields.iter().find(|f| {
+        si.ty(&f.ty.base).map(|t| t.fields.iter().any(|g| !si.is_vertex(&g.ty.base)) && t.fields.iter().any(|g| si.is_vertex(&g.ty.base))).unwrap_or(false)
+    });
+    let Some(root) = pick else { return vec![] };
+    let target = si.ty(&root.ty.base).unwrap();
+    let prop = target.fields.iter().find(|g| !si.is_vertex(&g.ty.base)).unwrap();
+    let edge = target.fields.iter().find(|g| si.is_vertex(&g.ty.base)).unwrap();
+    let mut g = Gen { rng, si, counter: 1000, tags: vec![], loose: false };
+    let root_args: Vec<Arg> = root
+        .params
+        .iter()
+        .filter(|p| !(p.has_default || p.ty.nullable[0]))
+        .map(|p| Arg { name: p.name.clone(), value: g.value_for(&TyRef { base: p.ty.base.clone(), nullable: p.ty.nullable.iter().map(|_| false).collect() }, 0) })
+        .collect();
+    let edge_args: Vec<Arg> = edge
+        .params
+        .iter()
+        .filter(|p| !(p.has_default || p.ty.nullable[0]))
+        .map(|p| Arg { name: p.name.clone(), value: g.value_for(&TyRef { base: p.ty.base.clone(), nullable: p.ty.nullable.iter().map(|_| false).collect() }, 0) })
+        .collect();
+    let sx = || s(x);
+    let out_dir = || d("output", vec![("name", s("o"))]);
+    let pfield = |dirs: Vec<Dir>| Sel::Field(FieldSel { alias: None, name: prop.name.clone(), args: vec![], dirs, sels: vec![] });
+    let efield = |args: Vec<Arg>, dirs: Vec<Dir>, sels: Vec<Sel>| Sel::Field(FieldSel { alias: None, name: edge.name.clone(), args, dirs, sels });
+    let mk = |root_args: Vec<Arg>, sels: Vec<Sel>| Doc {
+        ops: Ops::Single(Op {
+            kind: 'q',
+            nvars: 0,
+            dirs: vec![],
+            sels: vec![Sel::Field(FieldSel { alias: None, name: root.name.clone(), args: root_args, dirs: vec![], sels })],
+        }),
+        frags: vec![],
+    };
+    let inner = || vec![pfield(vec![d("output", vec![("name", s("inner"))])])];
+    let count = || d("transform", vec![("op", s("count"))]);
+    let mut docs: Vec<(Doc, &'static str)> = vec![];
+    let ra = || root_args.clone();
+    let ea = || edge_args.clone();
+    // @filter
+    docs.push((mk(ra(), vec![pfield(vec![out_dir(), d("filter", vec![("op", sx()), ("value", GVal::List(vec![s("$v")]))])])]), "filter-op"));
+    docs.push((mk(ra(), vec![pfield(vec![out_dir(), d("filter", vec![("op", sx())])])]), "filter-op-no-value"));
+    docs.push((mk(ra(), vec![pfield(vec![out_dir(), d("filter", vec![("op", s("=")), ("value", GVal::List(vec![sx()]))])])]), "filter-value-element"));
+    docs.push((mk(ra(), vec![pfield(vec![out_dir(), d("filter", vec![("op", s("=")), ("value", GVal::List(vec![s("$v"), sx()]))])])]), "filter-value-second-element"));
+    docs.push((mk(ra(), vec![pfield(vec![out_dir(), d("filter", vec![("op", s("=")), ("value", sx())])])]), "filter-value-as-string"));
+    docs.push((mk(ra(), vec![pfield(vec![out_dir(), d("filter", vec![("value", GVal::List(vec![sx()])), ("op", s("has_prefix"))])])]), "filter-value-before-op"));
+    // @tag / @output
+    docs.push((mk(ra(), vec![pfield(vec![out_dir(), d("tag", vec![("name", sx())])])]), "tag-name"));
+    docs.push((mk(ra(), vec![pfield(vec![d("output", vec![("name", sx())])])]), "output-name"));
+    docs.push((mk(ra(), vec![pfield(vec![d("output", vec![("name", sx())]), d("tag", vec![("name", sx())]), d("filter", vec![("op", s("=")), ("value", GVal::List(vec![s(&format!("%{x}"))]))])])]), "tag-and-use"));
+    // @transform / @fold / @optional / @recurse
+    docs.push((mk(ra(), vec![efield(ea(), vec![d("fold", vec![]), d("transform", vec![("op", sx())]), out_dir()], inner())]), "transform-op"));
+    docs.push((mk(ra(), vec![efield(ea(), vec![d("fold", vec![]), count(), d("output", vec![("name", sx())])], inner())]), "fold-count-output-name"));
+    docs.push((mk(ra(), vec![efield(ea(), vec![d("fold", vec![]), count(), out_dir(), d("tag", vec![("name", sx())])], inner())]), "fold-count-tag-name"));
+    docs.push((mk(ra(), vec![efield(ea(), vec![d("fold", vec![]), count(), out_dir(), d("filter", vec![("op", s(">")), ("value", GVal::List(vec![sx()]))])], inner())]), "fold-count-filter-value"));
+    docs.push((mk(ra(), vec![efield(ea(), vec![d("fold", vec![]), count(), out_dir(), d("filter", vec![("op", sx()), ("value", GVal::List(vec![s("$n")]))])], inner())]), "fold-count-filter-op"));
+    docs.push((mk(ra(), vec![efield(ea(), vec![d("fold", vec![("x", sx())])], inner())]), "fold-argument"));
+    docs.push((mk(ra(), vec![efield(ea(), vec![d("optional", vec![("x", sx())])], inner())]), "optional-argument"));
+    docs.push((mk(ra(), vec![efield(ea(), vec![d("recurse", vec![("depth", sx())])], inner())]), "recurse-depth"));
+    docs.push((mk(ra(), vec![efield(ea(), vec![d("recurse", vec![("depth", GVal::Int(1)), ("x", sx())])], inner())]), "recurse-extra-argument"));
+    // edge parameters: every parameter of the root field and of the edge, with the string as value
+    for p in &root.params {
+        let mut a: Vec<Arg> = ra().into_iter().filter(|q| q.name != p.name).collect();
+        a.push(Arg { name: p.name.clone(), value: sx() });
+        docs.push((mk(a, inner()), "root-parameter"));
+        let mut a: Vec<Arg> = ra().into_iter().filter(|q| q.name != p.name).collect();
+        a.push(Arg { name: p.name.clone(), value: GVal::List(vec![sx()]) });
+        docs.push((mk(a, inner()), "root-parameter-list"));
+    }
+    for p in &edge.params {
+        let mut a: Vec<Arg> = ea().into_iter().filter(|q| q.name != p.name).collect();
+        a.push(Arg { name: p.name.clone(), value: sx() });
+        docs.push((mk(ra(), vec![efield(a, vec![], inner())]), "edge-parameter"));
+    }
+    docs.push((mk(ra(), vec![efield({ let mut a = ea(); a.push(Arg { name: "extra".into(), value: sx() }); a }, vec![], inner())]), "edge-extra-parameter"));
+    docs
+}
+
 // ---- byte-level stream
 
 fn edit_text(rng: &mut Rng, text: &str) -> String {
@@ -1934,7 +2042,7 @@ impl Prop for C10 {
         "C10"
     }
     fn rule(&self) -> &'static str {
-        "Streams, over three schemas (the repo's `numbers`; `c10a`: Boolean/ID/Float properties, 29- and 30-level list properties, list/string/bool parameters with defaults and nullability, a three-level interface hierarchy with narrowed edge types, a custom scalar; `c10dup`: an edge that declares a parameter twice, accepted by Schema::parse): (valid) type-directed queries (root fields with parameters, properties incl. __typename, every edge, aliases, `... on` coercions, @optional/@recurse/@fold/@fold @transform(count) with @output/@filter/@tag, filters with variables and with previously defined tags incl. fold-count tags; one document in six in a loose mode with names from small pools - output/tag clashes, variables shared between filters - fold-local tags kept visible and rejected directive mixes); (mut) one to three random mutations of such a query out of 34 kinds: drop/duplicate/transpose/insert a directive, wrong argument kinds, missing/extra/duplicated arguments, @transform chains, directives on the root field / operation / fragment spreads / inline fragments, 1/2/3 named operations, fragments defined/used/unused, variable definitions, mutation/subscription, aliases everywhere, numeric edge cases of `depth`, filter operand shapes, renamed fields incl. __typename, edge arguments of every value kind, coercion under a property, output-name clashes, structures no text can produce (empty operation map, empty selection set); (bytes) rendered valid text with 1-4 random character edits: `(text-nopanic hex)` explores the unmodelled text parser (both sides answer the constant `nopanic`), and whatever the text parser accepts is converted back to an abstract document and sent as a compile-doc request. Every abstract document goes to the model as an s-expression and to the implementation as a directly constructed ExecutableDocument: `(compile-doc schema view doc)` compares the outcome class of frontend::parse_doc + IndexedQuery conversion (ok / `err parse V` / `err frontend V1 V2 …` in order / panic) with the model's `compile`; `(parse-doc doc)` (a third of the documents) compares graphql_query::query::parse_document alone; `(view-valid schema view)` compares the theorems' schema hypothesis with Schema::parse + distinct parameter names. A case is non-trivial (`nt:`) when it gets past the parse layer (compile-doc) or when its parse-layer answer is an error/panic or an `ok` with edge directives (parse-doc). ORACLE (all streams): no panic anywhere - frontend::parse on the rendered text, parse_doc + conversion on the constructed AST, the text parser on edited bytes - for any document a text could produce; when a document renders to text, async_graphql_parser::parse_query of that text must give exactly the constructed AST (normalised Debug equality) and the same outcome class."
+        "Streams, over three schemas (the repo's `numbers`; `c10a`: Boolean/ID/Float properties, 29- and 30-level list properties, list/string/bool parameters with defaults and nullability, a three-level interface hierarchy with narrowed edge types, a custom scalar; `c10dup`: an edge that declares a parameter twice, accepted by Schema::parse): (valid) type-directed queries (root fields with parameters, properties incl. __typename, every edge, aliases, `... on` coercions, @optional/@recurse/@fold/@fold @transform(count) with @output/@filter/@tag, filters with variables and with previously defined tags incl. fold-count tags; one document in six in a loose mode with names from small pools - output/tag clashes, variables shared between filters - fold-local tags kept visible and rejected directive mixes); (mut) one to three random mutations of such a query out of 34 kinds: drop/duplicate/transpose/insert a directive, wrong argument kinds, missing/extra/duplicated arguments, @transform chains, directives on the root field / operation / fragment spreads / inline fragments, 1/2/3 named operations, fragments defined/used/unused, variable definitions, mutation/subscription, aliases everywhere, numeric edge cases of `depth`, filter operand shapes, renamed fields incl. __typename, edge arguments of every value kind, coercion under a property, output-name clashes, structures no text can produce (empty operation map, empty selection set); (strings) a boundary alphabet of 90 strings (empty, lone `$`/`%`, sigil + non-ASCII, NON-ASCII FIRST character in 2-, 3- and 4-byte UTF-8, combining mark / BOM / NUL first, whitespace, digit, quote, backslash first, plain names) placed in every argument position that takes a string - @filter op, @filter value elements (first, second, as a bare string, before `op`), @tag/@output names (also on fold counts), @transform op, arguments of @fold/@optional/@recurse, every root-field and edge parameter - over a small valid base query per schema (tag `nt:non-ascii-first` when the string's first character is not ASCII); in rendered text non-ASCII BMP characters with an odd code point are written as GraphQL \\uXXXX escapes, the others literally; (bytes) rendered valid text with 1-4 random character edits: `(text-nopanic hex)` explores the unmodelled text parser (both sides answer the constant `nopanic`), and whatever the text parser accepts is converted back to an abstract document and sent as a compile-doc request. Every abstract document goes to the model as an s-expression and to the implementation as a directly constructed ExecutableDocument: `(compile-doc schema view doc)` compares the outcome class of frontend::parse_doc + IndexedQuery conversion (ok / `err parse V` / `err frontend V1 V2 …` in order / panic) with the model's `compile`; `(parse-doc doc)` (a third of the documents) compares graphql_query::query::parse_document alone; `(view-valid schema view)` compares the theorems' schema hypothesis with Schema::parse + distinct parameter names. A case is non-trivial (`nt:`) when it gets past the parse layer (compile-doc) or when its parse-layer answer is an error/panic or an `ok` with edge directives (parse-doc). ORACLE (all streams): no panic anywhere - frontend::parse on the rendered text, parse_doc + conversion on the constructed AST, the text parser on edited bytes - for any document a text could produce; when a document renders to text, async_graphql_parser::parse_query of that text must give exactly the constructed AST (normalised Debug equality) and the same outcome class."
     }
     fn generate(&self, tier: Tier, rng: &mut Rng) -> Vec<Case> {
         let (n_valid, n_mut, n_bytes) = if tier == Tier::Quick { (2000, 7000, 4000) } else { (20000, 70000, 40000) };
@@ -1969,6 +2077,17 @@ impl Prop for C10 {
                 emit(&doc, &si, &view, tags, also, &mut out);
             }
             if share > 0 {
+                // boundary strings in every string-taking argument position
+                for x in boundary_strings() {
+                    let non_ascii_first = x.chars().next().map(|c| !c.is_ascii()).unwrap_or(false);
+                    for (doc, pos) in string_position_docs(rng, &si, &x) {
+                        let mut tags = vec!["stream:strings".to_string(), format!("strpos:{pos}")];
+                        if non_ascii_first {
+                            tags.push("nt:non-ascii-first".to_string());
+                        }
+                        emit(&doc, &si, &view, tags, true, &mut out);
+                    }
+                }
                 for _ in 0..(n_bytes * share / 5) {
                     let doc = gen_valid(rng, &si);
                     let text = render_doc(&doc).expect("valid documents render");
